@@ -75,6 +75,44 @@ Theorem C13_dropped_engine_step_conserves : forall st now w w',
   total w' = total w.
 Proof. exact step_cancel_conserves. Qed.
 
+From Minimq Require Import Replay.
+
+(* ---- the operations themselves, dropped at any await point, on any transport ----
+   Either no trace (`total` unchanged: dropped while the queues were still being drained, the request was never enqueued) or the
+   whole request enqueued (`total` = old total ++ its encoding, whatever part of it was already written); invariants and timers
+   in place; continuing to drain completes exactly that byte stream (C13_dropped_drain_resumes).  QoS 0 is the documented
+   exception (first disjunct). *)
+Theorem C13_publish_cancel_safe : forall fuel r w w',
+  WInv (w_sess w) -> PQ w -> op_publish fuel r w = (w', OCancel) ->
+  (exists w1, flush_outbound fuel w = (w1, ODone tt) /\ effective_qos (w_sess w1) (pr_qos r) = Q0) \/
+  (WInv (w_sess w') /\ PQ w' /\
+   (total w' = total w \/
+    exists w1 bs cap off id, flush_outbound fuel w = (w1, ODone tt) /\
+      enc_publish cap (pub_request r (effective_qos (w_sess w1) (pr_qos r)) id) = SOk off bs /\ total w' = total w ++ bs)).
+Proof. exact op_publish_cancel_safe. Qed.
+
+Theorem C13_subscribe_cancel_safe : forall fuel topics ps w w',
+  WInv (w_sess w) -> PQ w -> op_subscribe fuel topics ps w = (w', OCancel) ->
+  WInv (w_sess w') /\ PQ w' /\
+  (total w' = total w \/
+   exists bs cap off id, enc_subscribe cap {| sq_pid := id; sq_props := ps; sq_topics := topics |} = SOk off bs /\ total w' = total w ++ bs).
+Proof. exact op_subscribe_cancel_safe. Qed.
+
+Theorem C13_unsubscribe_cancel_safe : forall fuel topics ps w w',
+  WInv (w_sess w) -> PQ w -> op_unsubscribe fuel topics ps w = (w', OCancel) ->
+  WInv (w_sess w') /\ PQ w' /\
+  (total w' = total w \/
+   exists bs cap off id, enc_unsubscribe cap {| uq_pid := id; uq_props := ps; uq_topics := topics |} = SOk off bs /\ total w' = total w ++ bs).
+Proof. exact op_unsubscribe_cancel_safe. Qed.
+
+Theorem C13_publish_cancel_example :
+  snd (op_publish FUEL ex_pub3 (ex_drop 9)) = OCancel /\ total (ex_dropped 9) = total ex_conn /\
+  w_wire (ex_resumed 9) = w_wire ex_conn ++ owed (s_ob (w_sess ex_conn)) /\
+  snd (op_publish FUEL ex_pub3 (ex_drop 14)) = OCancel /\
+  total (ex_dropped 14) = total ex_conn ++ [51; 8; 0; 1; 118; 0; 3; 0; 7; 7] /\ owed (s_ob (w_sess (ex_dropped 14))) = [7] /\
+  w_wire (ex_resumed 14) = w_wire ex_conn ++ owed (s_ob (w_sess ex_conn)) ++ [51; 8; 0; 1; 118; 0; 3; 0; 7; 7].
+Proof. exact publish_cancel_example. Qed.
+
 Print Assumptions C13_inbound_bytes_conserved.
 Print Assumptions C13_engine_step_all_or_nothing.
 Print Assumptions C13_publish_not_applied_or_applied.
@@ -84,3 +122,7 @@ Print Assumptions C13_disconnect_cancel_refuted.
 Print Assumptions C13_dropped_drain_conserves.
 Print Assumptions C13_dropped_drain_resumes.
 Print Assumptions C13_dropped_engine_step_conserves.
+Print Assumptions C13_publish_cancel_safe.
+Print Assumptions C13_subscribe_cancel_safe.
+Print Assumptions C13_unsubscribe_cancel_safe.
+Print Assumptions C13_publish_cancel_example.
